@@ -112,7 +112,7 @@ Proof.
   intros I H Hg Hu. pose proof (unqueued_expired _ _ _ I Hg Hu) as Hex.
   assert (pid <= seq s) as Hseq.
   { pose proof (i_ids _ I) as Hids. rewrite Forall_forall in Hids. apply (Hids pid). eapply get_Some_in_keys; exact Hg. }
-  destruct m as [who lpt start ed rules|who pid' d amt|who pid' d amt|who pid'|who pid' add rpb|who pid']; simpl in H.
+  destruct m as [who lpt start ed rules|who pid' d amt|who pid' d amt|who pid'|who pid' add rpb|who pid'|who cf tr]; simpl in H.
   - destruct (create_Done _ _ _ _ _ _ _ _ H) as (b1 & b2 & iv & _ & _ & _ & _ & _ & _ & _ & _ & ->). unfold same_pool, unqueued in *; split; simpl.
     + exists p. rewrite get_set_other by lia. auto.
     + apply unq_enqueue; [lia|exact Hu].
@@ -137,6 +137,7 @@ Proof.
     + destruct (_ =? p_end p1); [exact Hu|]. apply unq_enqueue; [exact Hne|]. apply unq_dequeue. exact Hu.
   - destruct (destroy_Done _ _ _ _ _ H) as (p0 & Hg0 & _ & _ & Hex0 & Hr & _).
     destruct (Z.eq_dec pid' pid) as [->|Hne]; [congruence|]. exact (refund_other _ _ _ _ _ _ _ Hne Hg Hu Hr).
+  - destruct (update_params_Done _ _ _ _ _ _ H) as (_ & _ & _ & _ & ->). split; [exists p; auto|exact Hu].
 Qed.
 
 Lemma end_block_same_pool l : forall s pid p, ~ In pid l -> get pid (pools s) = Some p -> unqueued s pid ->
